@@ -473,7 +473,7 @@ def bfs_configs(ctx: core.Ctx) -> list:
             (Model(4, 0b1010, "own", (1, 3), s, 12), 4),
             (Model(4, 0b0000, "zero", (0, 1, 3), s, 16), 3),
             (Model(4, 0b1111, "zero", (1,), s, 16), 6),
-            (Model(4, 0b1010, "zero", (1,), s, 12), 6),
+            (Model(4, 0b1010, "zero", (1,), s, 12), 5),  # XOR-isomorphic to the previous world except for shared keys
             (Model(5, 0b10101, "own", (1,), s, 20), 4),
             (Model(3, 0b101, "own", (0, 1, 3), s, 5), 5),
             (Model(3, 0b111, "zero", (1, 3), s, 8, capacity=3), 5),
